@@ -8,6 +8,8 @@
 //!   EN <set> <bo> <prefix> <case> <payload>        typed Variant (V), derived enum (D), dbus_variant_sig! (S),
 //!                                                  dbus_variant_var! (M), Param variant (P): encode, decode 5x5
 //!   EO <set> <bo> <prefix> <other> <value>         prefix u8s, variant of <other>, u32 AFTER, trailer u8: the three enums read the variant
+//!   EC <kind> <bo> <prefix> <container value>      enum E1 (derived D, dbus_variant_sig! S, dbus_variant_var! M) and params::Variant (Q) in element
+//!                                                  position of Vec / HashMap / tuples / a derived struct, and the Param tree (P): encode, decode 5x5
 //!   CV <C|R> <base value>                          one Base built through From<T> (C) / From<&T>, &str (R): every TryFrom<&Base>, as_*, into_* that succeeds
 //!   CF                                             conversions and constructors that must refuse (empty containers without signature, mixed element types, ...)
 //! In ST and EN the Param tree is built three ways: P = enum literals, C = the public conversion API (From<T>/From<&T> for Base
@@ -71,7 +73,7 @@ impl<T: Tok + Signature> Tok for Vr<T> {
         self.0.to_tok(out, s);
     }
 }
-impl<T> Signature for Vr<T> {
+impl<T: Marshal> Signature for Vr<T> {
     fn signature() -> signature::Type {
         Var::<T>::signature()
     }
@@ -90,7 +92,7 @@ impl<T: Marshal> Marshal for Vr<T> {
         rustbus::wire::marshal::traits::Variant(&self.0).marshal(ctx)
     }
 }
-impl<'buf, 'fds, T: Unmarshal<'buf, 'fds>> Unmarshal<'buf, 'fds> for Vr<T> {
+impl<'buf, 'fds, T: Marshal + Unmarshal<'buf, 'fds>> Unmarshal<'buf, 'fds> for Vr<T> {
     fn unmarshal(ctx: &mut rustbus::wire::unmarshal_context::UnmarshalContext<'fds, 'buf>) -> Result<Self, UnmarshalError> {
         let v = rustbus::wire::unmarshal::traits::Variant::unmarshal(ctx)?;
         v.get::<T>().map(Vr)
@@ -1078,6 +1080,7 @@ macro_rules! push_case {
     ($api:expr, $rest:expr, $body:expr, $T:ty, $mkd:expr, $mks:expr, $mkm:expr) => {{
         match $api {
             "V" => $body.push_param(&Var(<$T>::from_tok(&mut Args::new($rest)))).is_ok(),
+            "W" => $body.push_variant(<$T>::from_tok(&mut Args::new($rest))).is_ok(),
             "D" => {
                 let f: fn($T) -> _ = $mkd;
                 $body.push_param(&f(<$T>::from_tok(&mut Args::new($rest)))).is_ok()
@@ -1321,13 +1324,470 @@ impl EnumSet for Set3 {
     }
 }
 
+
+// ---- E4: several cases with the same signature: the first one answers
+#[derive(Marshal, Unmarshal, Signature, Debug)]
+pub enum E4D {
+    A(u32),
+    B(u32),
+    C(u8, u64),
+    D { x: u8, y: u64 },
+    E((u8, u64)),
+    F(String),
+    G(String),
+}
+pub type E4C = (u8, u64);
+dbus_variant_sig!(E4S, A => u32; B => u32; C => E4C; D => E4C; E => E4C; F => String; G => String);
+dbus_variant_var!(E4M, A => u32; B => u32; C => E4C; D => E4C; E => E4C; F => String; G => String);
+const E4_DESC: &str = "1:u|1:u|m:yt|n:yt|1:(yt)|1:s|1:s";
+struct Set4;
+impl EnumSet for Set4 {
+    fn push(api: &str, i: usize, rest: &str, body: &mut MarshalledMessageBody) -> bool {
+        match i {
+            0 => push_case!(api, rest, body, u32, |x| E4D::A(x), |x| E4S::A(x), |x| E4M::A(x)),
+            1 => push_case!(api, rest, body, u32, |x| E4D::B(x), |x| E4S::B(x), |x| E4M::B(x)),
+            2 => push_case!(api, rest, body, E4C, |x| E4D::C(x.0, x.1), |x| E4S::C(x), |x| E4M::C(x)),
+            3 => push_case!(api, rest, body, E4C, |x| E4D::D { x: x.0, y: x.1 }, |x| E4S::D(x), |x| E4M::D(x)),
+            4 => push_case!(api, rest, body, E4C, |x| E4D::E(x), |x| E4S::E(x), |x| E4M::E(x)),
+            5 => push_case!(api, rest, body, String, |x| E4D::F(x), |x| E4S::F(x), |x| E4M::F(x)),
+            6 => push_case!(api, rest, body, String, |x| E4D::G(x), |x| E4S::G(x), |x| E4M::G(x)),
+            _ => panic!("case"),
+        }
+    }
+    fn read_v(i: usize, p: &mut MessageBodyParser) -> String {
+        match i {
+            0 | 1 => read_typed::<Var<u32>>(p),
+            2 | 3 | 4 => read_typed::<Var<E4C>>(p),
+            _ => read_typed::<Var<String>>(p),
+        }
+    }
+    fn read_enum(api: &str, p: &mut MessageBodyParser, inner: &dyn Fn(&rustbus::wire::unmarshal::traits::Variant) -> String) -> Result<String, UnmarshalError> {
+        Ok(match api {
+            "D" => match p.get::<E4D>()? {
+                E4D::A(x) => case_str(0, &x),
+                E4D::B(x) => case_str(1, &x),
+                E4D::C(a, b) => case_str(2, &(a, b)),
+                E4D::D { x, y } => case_str(3, &(x, y)),
+                E4D::E(x) => case_str(4, &x),
+                E4D::F(x) => case_str(5, &x),
+                E4D::G(x) => case_str(6, &x),
+            },
+            "S" => match p.get::<E4S>()? {
+                E4S::A(x) => case_str(0, &x),
+                E4S::B(x) => case_str(1, &x),
+                E4S::C(x) => case_str(2, &x),
+                E4S::D(x) => case_str(3, &x),
+                E4S::E(x) => case_str(4, &x),
+                E4S::F(x) => case_str(5, &x),
+                E4S::G(x) => case_str(6, &x),
+                E4S::Catchall(t) => format!("catch,{}", sig_str(&t)),
+            },
+            _ => match p.get::<E4M>()? {
+                E4M::A(x) => case_str(0, &x),
+                E4M::B(x) => case_str(1, &x),
+                E4M::C(x) => case_str(2, &x),
+                E4M::D(x) => case_str(3, &x),
+                E4M::E(x) => case_str(4, &x),
+                E4M::F(x) => case_str(5, &x),
+                E4M::G(x) => case_str(6, &x),
+                E4M::Catchall(v) => format!("catch,{},{}", sig_str(v.get_value_sig()), inner(&v)),
+            },
+        })
+    }
+}
+
+// ---- E5: short signatures at and beyond the nesting limits (32 arrays, 32 structs)
+pub type W1 = Vec<u8>;
+pub type W2 = Vec<W1>;
+pub type W3 = Vec<W2>;
+pub type W4 = Vec<W3>;
+pub type W5 = Vec<W4>;
+pub type W6 = Vec<W5>;
+pub type W7 = Vec<W6>;
+pub type W8 = Vec<W7>;
+pub type W9 = Vec<W8>;
+pub type W10 = Vec<W9>;
+pub type W11 = Vec<W10>;
+pub type W12 = Vec<W11>;
+pub type W13 = Vec<W12>;
+pub type W14 = Vec<W13>;
+pub type W15 = Vec<W14>;
+pub type W16 = Vec<W15>;
+pub type W17 = Vec<W16>;
+pub type W18 = Vec<W17>;
+pub type W19 = Vec<W18>;
+pub type W20 = Vec<W19>;
+pub type W21 = Vec<W20>;
+pub type W22 = Vec<W21>;
+pub type W23 = Vec<W22>;
+pub type W24 = Vec<W23>;
+pub type W25 = Vec<W24>;
+pub type W26 = Vec<W25>;
+pub type W27 = Vec<W26>;
+pub type W28 = Vec<W27>;
+pub type W29 = Vec<W28>;
+pub type W30 = Vec<W29>;
+pub type W31 = Vec<W30>;
+pub type W32 = Vec<W31>;
+pub type W33 = Vec<W32>;
+pub type U1 = (u8,);
+pub type U2 = (U1,);
+pub type U3 = (U2,);
+pub type U4 = (U3,);
+pub type U5 = (U4,);
+pub type U6 = (U5,);
+pub type U7 = (U6,);
+pub type U8 = (U7,);
+pub type U9 = (U8,);
+pub type U10 = (U9,);
+pub type U11 = (U10,);
+pub type U12 = (U11,);
+pub type U13 = (U12,);
+pub type U14 = (U13,);
+pub type U15 = (U14,);
+pub type U16 = (U15,);
+pub type U17 = (U16,);
+pub type U18 = (U17,);
+pub type U19 = (U18,);
+pub type U20 = (U19,);
+pub type U21 = (U20,);
+pub type U22 = (U21,);
+pub type U23 = (U22,);
+pub type U24 = (U23,);
+pub type U25 = (U24,);
+pub type U26 = (U25,);
+pub type U27 = (U26,);
+pub type U28 = (U27,);
+pub type U29 = (U28,);
+pub type U30 = (U29,);
+pub type U31 = (U30,);
+pub type U32 = (U31,);
+pub type U33 = (U32,);
+pub type E5E = (W32, u8);
+pub type E5F = (W33, u8);
+pub type E5G = (U31,);
+pub type E5H = (U32,);
+#[derive(Marshal, Unmarshal, Signature, Debug)]
+pub enum E5D {
+    A(W32),
+    B(W33),
+    C(U32),
+    D(U33),
+    E(W32, u8),
+    F(W33, u8),
+    G { a: U31 },
+    H { a: U32 },
+}
+dbus_variant_sig!(E5S, A => W32; B => W33; C => U32; D => U33; E => E5E; F => E5F; G => E5G; H => E5H);
+dbus_variant_var!(E5M, A => W32; B => W33; C => U32; D => U33; E => E5E; F => E5F; G => E5G; H => E5H);
+fn e5_desc() -> String {
+    let w = |n: usize| format!("{}y", "a".repeat(n));
+    let u = |n: usize| format!("{}y{}", "(".repeat(n), ")".repeat(n));
+    [
+        format!("1:{}", w(32)),
+        format!("1:{}", w(33)),
+        format!("1:{}", u(32)),
+        format!("1:{}", u(33)),
+        format!("m:{}y", w(32)),
+        format!("m:{}y", w(33)),
+        format!("n:{}", u(31)),
+        format!("n:{}", u(32)),
+    ]
+    .join("|")
+}
+struct Set5;
+impl EnumSet for Set5 {
+    fn push(api: &str, i: usize, rest: &str, body: &mut MarshalledMessageBody) -> bool {
+        match i {
+            0 => push_case!(api, rest, body, W32, |x| E5D::A(x), |x| E5S::A(x), |x| E5M::A(x)),
+            1 => push_case!(api, rest, body, W33, |x| E5D::B(x), |x| E5S::B(x), |x| E5M::B(x)),
+            2 => push_case!(api, rest, body, U32, |x| E5D::C(x), |x| E5S::C(x), |x| E5M::C(x)),
+            3 => push_case!(api, rest, body, U33, |x| E5D::D(x), |x| E5S::D(x), |x| E5M::D(x)),
+            4 => push_case!(api, rest, body, E5E, |x| E5D::E(x.0, x.1), |x| E5S::E(x), |x| E5M::E(x)),
+            5 => push_case!(api, rest, body, E5F, |x| E5D::F(x.0, x.1), |x| E5S::F(x), |x| E5M::F(x)),
+            6 => push_case!(api, rest, body, E5G, |x| E5D::G { a: x.0 }, |x| E5S::G(x), |x| E5M::G(x)),
+            7 => push_case!(api, rest, body, E5H, |x| E5D::H { a: x.0 }, |x| E5S::H(x), |x| E5M::H(x)),
+            _ => panic!("case"),
+        }
+    }
+    fn read_v(i: usize, p: &mut MessageBodyParser) -> String {
+        match i {
+            0 => read_typed::<Var<W32>>(p),
+            1 => read_typed::<Var<W33>>(p),
+            2 => read_typed::<Var<U32>>(p),
+            3 => read_typed::<Var<U33>>(p),
+            4 => read_typed::<Var<E5E>>(p),
+            5 => read_typed::<Var<E5F>>(p),
+            6 => read_typed::<Var<E5G>>(p),
+            _ => read_typed::<Var<E5H>>(p),
+        }
+    }
+    fn read_enum(api: &str, p: &mut MessageBodyParser, inner: &dyn Fn(&rustbus::wire::unmarshal::traits::Variant) -> String) -> Result<String, UnmarshalError> {
+        Ok(match api {
+            "D" => match p.get::<E5D>()? {
+                E5D::A(x) => case_str(0, &x),
+                E5D::B(x) => case_str(1, &x),
+                E5D::C(x) => case_str(2, &x),
+                E5D::D(x) => case_str(3, &x),
+                E5D::E(a, b) => case_str(4, &(a, b)),
+                E5D::F(a, b) => case_str(5, &(a, b)),
+                E5D::G { a } => case_str(6, &(a,)),
+                E5D::H { a } => case_str(7, &(a,)),
+            },
+            "S" => match p.get::<E5S>()? {
+                E5S::A(x) => case_str(0, &x),
+                E5S::B(x) => case_str(1, &x),
+                E5S::C(x) => case_str(2, &x),
+                E5S::D(x) => case_str(3, &x),
+                E5S::E(x) => case_str(4, &x),
+                E5S::F(x) => case_str(5, &x),
+                E5S::G(x) => case_str(6, &x),
+                E5S::H(x) => case_str(7, &x),
+                E5S::Catchall(t) => format!("catch,{}", sig_str(&t)),
+            },
+            _ => match p.get::<E5M>()? {
+                E5M::A(x) => case_str(0, &x),
+                E5M::B(x) => case_str(1, &x),
+                E5M::C(x) => case_str(2, &x),
+                E5M::D(x) => case_str(3, &x),
+                E5M::E(x) => case_str(4, &x),
+                E5M::F(x) => case_str(5, &x),
+                E5M::G(x) => case_str(6, &x),
+                E5M::H(x) => case_str(7, &x),
+                E5M::Catchall(v) => format!("catch,{},{}", sig_str(v.get_value_sig()), inner(&v)),
+            },
+        })
+    }
+}
+
+// ---- EC: enums in element position
+/// an enum value in token syntax: v <case signature> <payload>; reading picks the first case with that signature
+impl Tok for E1D {
+    fn from_tok(a: &mut Args) -> Self {
+        assert_eq!(a.next(), "v");
+        match a.next() {
+            "u" => E1D::A(u32::from_tok(a)),
+            "s" => E1D::B(String::from_tok(a)),
+            "(yt)" => {
+                let x = E1C::from_tok(a);
+                E1D::C(x.0, x.1)
+            }
+            "(aty)" => {
+                let x = E1Dt::from_tok(a);
+                E1D::D { x: x.0, y: x.1 }
+            }
+            s => panic!("E1 case {}", s),
+        }
+    }
+    fn to_tok(&self, out: &mut Vec<String>, s: bool) {
+        match self {
+            E1D::A(x) => Var(*x).to_tok(out, s),
+            E1D::B(x) => Var(x.clone()).to_tok(out, s),
+            E1D::C(a, b) => Var((*a, *b)).to_tok(out, s),
+            E1D::D { x, y } => Var((x.clone(), *y)).to_tok(out, s),
+        }
+    }
+}
+impl Tok for E1S {
+    fn from_tok(a: &mut Args) -> Self {
+        assert_eq!(a.next(), "v");
+        match a.next() {
+            "u" => E1S::A(u32::from_tok(a)),
+            "s" => E1S::B(String::from_tok(a)),
+            "(yt)" => E1S::C(E1C::from_tok(a)),
+            "(aty)" => E1S::D(E1Dt::from_tok(a)),
+            s => panic!("E1 case {}", s),
+        }
+    }
+    fn to_tok(&self, out: &mut Vec<String>, s: bool) {
+        match self {
+            E1S::A(x) => Var(*x).to_tok(out, s),
+            E1S::B(x) => Var(x.clone()).to_tok(out, s),
+            E1S::C(x) => Var(*x).to_tok(out, s),
+            E1S::D(x) => Var(x.clone()).to_tok(out, s),
+            E1S::Catchall(t) => out.push(format!("CATCH:{}", sig_str(t))),
+        }
+    }
+}
+impl<'f, 'b> Tok for E1M<'f, 'b> {
+    fn from_tok(a: &mut Args) -> Self {
+        assert_eq!(a.next(), "v");
+        match a.next() {
+            "u" => E1M::A(u32::from_tok(a)),
+            "s" => E1M::B(String::from_tok(a)),
+            "(yt)" => E1M::C(E1C::from_tok(a)),
+            "(aty)" => E1M::D(E1Dt::from_tok(a)),
+            s => panic!("E1 case {}", s),
+        }
+    }
+    fn to_tok(&self, out: &mut Vec<String>, s: bool) {
+        match self {
+            E1M::A(x) => Var(*x).to_tok(out, s),
+            E1M::B(x) => Var(x.clone()).to_tok(out, s),
+            E1M::C(x) => Var(*x).to_tok(out, s),
+            E1M::D(x) => Var(x.clone()).to_tok(out, s),
+            E1M::Catchall(v) => out.push(format!("CATCH:{}", sig_str(v.get_value_sig()))),
+        }
+    }
+}
+/// params::Variant as a typed element (its own Signature / Marshal / Unmarshal impls); kept as tokens
+#[derive(Debug)]
+pub struct PV(Vec<String>);
+impl Tok for PV {
+    fn from_tok(a: &mut Args) -> Self {
+        let p = param_from(a);
+        let mut out = Vec::new();
+        param_tok(&p, &mut out);
+        PV(out)
+    }
+    fn to_tok(&self, out: &mut Vec<String>, _s: bool) {
+        out.extend(self.0.iter().cloned());
+    }
+}
+impl Signature for PV {
+    fn signature() -> signature::Type {
+        rustbus::params::Variant::signature()
+    }
+    fn alignment() -> usize {
+        rustbus::params::Variant::alignment()
+    }
+    fn sig_str(s: &mut rustbus::wire::marshal::traits::SignatureBuffer) {
+        rustbus::params::Variant::sig_str(s)
+    }
+    fn has_sig(s: &str) -> bool {
+        rustbus::params::Variant::has_sig(s)
+    }
+}
+impl Marshal for PV {
+    fn marshal(&self, ctx: &mut rustbus::wire::marshal::MarshalContext) -> Result<(), rustbus::wire::errors::MarshalError> {
+        let line = self.0.join(" ");
+        match param_from(&mut Args::new(&line)) {
+            Param::Container(Container::Variant(v)) => v.marshal(ctx),
+            _ => panic!("PV holds a variant"),
+        }
+    }
+}
+// params::Variant<'a, 'e> needs 'e: 'a and its Container needs the converse, so its Unmarshal impl exists for one lifetime only
+impl<'a> Unmarshal<'a, 'a> for PV {
+    fn unmarshal(ctx: &mut rustbus::wire::unmarshal_context::UnmarshalContext<'a, 'a>) -> Result<Self, UnmarshalError> {
+        let v = <rustbus::params::Variant<'a, 'a> as Unmarshal<'a, 'a>>::unmarshal(ctx)?;
+        let mut out = Vec::new();
+        param_tok(&Param::Container(Container::Variant(Box::new(v))), &mut out);
+        Ok(PV(out))
+    }
+}
+#[derive(Marshal, Unmarshal, Signature, Debug)]
+pub struct SE1D {
+    pub a: u8,
+    pub e: E1D,
+    pub b: u64,
+}
+#[derive(Marshal, Unmarshal, Signature, Debug)]
+pub struct SE1S {
+    pub a: u8,
+    pub e: E1S,
+    pub b: u64,
+}
+macro_rules! se_tok {
+    ($S:ident, $E:ty) => {
+        impl Tok for $S {
+            fn from_tok(a: &mut Args) -> Self {
+                assert_eq!(a.next(), "r");
+                assert_eq!(a.num(), 3);
+                $S { a: u8::from_tok(a), e: <$E>::from_tok(a), b: u64::from_tok(a) }
+            }
+            fn to_tok(&self, out: &mut Vec<String>, s: bool) {
+                out.push("r".into());
+                out.push("3".into());
+                self.a.to_tok(out, s);
+                self.e.to_tok(out, s);
+                self.b.to_tok(out, s);
+            }
+        }
+    };
+}
+se_tok!(SE1D, E1D);
+se_tok!(SE1S, E1S);
+
+/// get::<T>() with the lifetimes inferred at the call (dbus_variant_var! enums borrow from the body), then the trailer
+macro_rules! read_as {
+    ($p:expr, $T:ty) => {
+        match $p.get::<$T>() {
+            Ok(v) => {
+                let t = toks(&v);
+                drop(v);
+                format!("ok,{},{}", trailer($p), t)
+            }
+            Err(e) => err_name(&e).to_string(),
+        }
+    };
+}
+/// one container kind: the container types over E1D, E1S, E1M (or none) and PV
+macro_rules! ec_kind {
+    ($bo:expr, $prefix:expr, $rest:expr, $CD:ty, $CS:ty, [$($CM:ty)?], [$($CQ:ty)?]) => {{
+        let mut out = Vec::new();
+        let apis: Vec<&str> = {
+            let mut v = vec!["D", "S"];
+            $(let _ = std::marker::PhantomData::<$CM>; v.push("M");)?
+            $(let _ = std::marker::PhantomData::<$CQ>; v.push("Q");)?
+            v.push("P");
+            v
+        };
+        for api in apis.iter() {
+            let mut msg = new_body($bo, $prefix);
+            let ok = match *api {
+                "D" => msg.body.push_param(&<$CD>::from_tok(&mut Args::new($rest))).is_ok(),
+                "S" => msg.body.push_param(&<$CS>::from_tok(&mut Args::new($rest))).is_ok(),
+                $("M" => msg.body.push_param(&<$CM>::from_tok(&mut Args::new($rest))).is_ok(),)?
+                $("Q" => msg.body.push_param(&<$CQ>::from_tok(&mut Args::new($rest))).is_ok(),)?
+                _ => msg.body.push_old_param(&param_from(&mut Args::new($rest))).is_ok(),
+            };
+            out.push(enc_field(api, ok, &msg));
+            if !ok {
+                continue;
+            }
+            msg.body.push_param(TRAILER).unwrap();
+            // a body this crate marshalled must pass its own validation
+            out.push(format!("valid:{}={}", api, msg.body.validate().is_ok()));
+            for dec in apis.iter() {
+                let mut p = msg.body.parser();
+                skip_prefix(&mut p, $prefix);
+                let r = match *dec {
+                    "D" => read_as!(&mut p, $CD),
+                    "S" => read_as!(&mut p, $CS),
+                    $("M" => read_as!(&mut p, $CM),)?
+                    $("Q" => read_as!(&mut p, $CQ),)?
+                    _ => read_param(&mut p),
+                };
+                out.push(format!("dec:{}{}={}", api, dec, r));
+            }
+        }
+        out.join(" ")
+    }};
+}
+const KINDS: &[&str] = &["aE", "a{sE}", "(yEy)", "a(yE)", "(Et)", "(yaEq)", "<yEt>"];
+fn ec(kind: &str, bo: rustbus::ByteOrder, prefix: u64, rest: &str) -> String {
+    match kind {
+        "aE" => ec_kind!(bo, prefix, rest, Vec<E1D>, Vec<E1S>, [Vec<E1M>], [Vec<PV>]),
+        "a{sE}" => ec_kind!(bo, prefix, rest, HashMap<String, E1D>, HashMap<String, E1S>, [HashMap<String, E1M>], [HashMap<String, PV>]),
+        "(yEy)" => ec_kind!(bo, prefix, rest, (u8, E1D, u8), (u8, E1S, u8), [(u8, E1M, u8)], [(u8, PV, u8)]),
+        "a(yE)" => ec_kind!(bo, prefix, rest, Vec<(u8, E1D)>, Vec<(u8, E1S)>, [Vec<(u8, E1M)>], [Vec<(u8, PV)>]),
+        "(Et)" => ec_kind!(bo, prefix, rest, (E1D, u64), (E1S, u64), [(E1M, u64)], [(PV, u64)]),
+        "(yaEq)" => ec_kind!(bo, prefix, rest, (u8, Vec<E1D>, u16), (u8, Vec<E1S>, u16), [(u8, Vec<E1M>, u16)], [(u8, Vec<PV>, u16)]),
+        // a derived struct with an enum field (the derive can express neither dbus_variant_var!'s two lifetimes nor
+        // params::Variant's single one)
+        "<yEt>" => ec_kind!(bo, prefix, rest, SE1D, SE1S, [], []),
+        x => format!("BAD kind {}", x),
+    }
+}
+
 fn no_inner(_: &rustbus::wire::unmarshal::traits::Variant) -> String {
     "-".to_string()
 }
 
 fn en<E: EnumSet>(bo: rustbus::ByteOrder, prefix: u64, case: usize, rest: &str) -> String {
     let mut out = Vec::new();
-    for (k, api) in ["V", "D", "S", "M", "P", "C", "R"].iter().enumerate() {
+    for (k, api) in ["V", "W", "D", "S", "M", "P", "C", "R"].iter().enumerate() {
         let api = *api;
         let mut msg = new_body(bo, prefix);
         let ok = if api == "P" {
@@ -1430,7 +1890,23 @@ fn bo_of(s: &str) -> rustbus::ByteOrder {
 fn eval(line: &str) -> String {
     let op = line.split(' ').next().unwrap_or("");
     match op {
-        "LIST" => format!("shapes={} others={} E1={} E2={} E3={}", SHAPES.join(","), OTHERS.join(","), E1_DESC, E2_DESC, e3_desc()),
+        "LIST" => format!(
+            "shapes={} others={} E1={} E2={} E3={} E4={} E5={} kinds={}",
+            SHAPES.join(","),
+            OTHERS.join(","),
+            E1_DESC,
+            E2_DESC,
+            e3_desc(),
+            E4_DESC,
+            e5_desc(),
+            KINDS.join(",")
+        ),
+        "EC" => {
+            let (h, rest) = split_rest(line, 4);
+            let bo = bo_of(h[2]);
+            let prefix: u64 = h[3].parse().unwrap();
+            ec(h[1], bo, prefix, &rest)
+        }
         "CV" => {
             let (h, rest) = split_rest(line, 2);
             cv(h[1], &rest)
@@ -1457,6 +1933,8 @@ fn eval(line: &str) -> String {
                 "E1" => en::<Set1>(bo, prefix, case, &rest),
                 "E2" => en::<Set2>(bo, prefix, case, &rest),
                 "E3" => en::<Set3>(bo, prefix, case, &rest),
+                "E4" => en::<Set4>(bo, prefix, case, &rest),
+                "E5" => en::<Set5>(bo, prefix, case, &rest),
                 x => format!("BAD set {}", x),
             }
         }
